@@ -121,7 +121,13 @@ def typed_expected(p):
                            int(round((sp.get("z", 0) + fl.get("z", 0)) * 1e4)), int(round(sp.get("azimuth", 0) * 1e4)), inside,
                            int(round(sp.get("mult", 1) * 1e4)), int(round(fl.get("mult", 1) * 1e4)),
                            sp.get("spacecond") or sp.get("spacetype", "Residencial"), sp.get("syscond") or sp.get("spacetype", "Residencial"),
-                           [[int(round(v[0] * 1e4)), int(round(v[1] * 1e4))] for v in polys[sp["polygon"]]]])
+                           [[int(round(v[0] * 1e4)), int(round(v[1] * 1e4))] for v in polys[sp["polygon"]]],
+                           # air changes: fixed by the tightness level for uninhabited spaces, else the written value, else none
+                           ({"NIVEL_ESTANQUEIDAD_1": 1000, "NIVEL_ESTANQUEIDAD_2": 5000, "NIVEL_ESTANQUEIDAD_3": 10000, "NIVEL_ESTANQUEIDAD_4": 30000,
+                             "NIVEL_ESTANQUEIDAD_5": 100000}.get(sp.get("spacecond") or sp.get("spacetype", "Residencial")) if typ == "UNHABITED" else None)
+                           or (int(round(sp["nv"] * 1e4)) if "nv" in sp else -1),
+                           int(round(sp.get("power", 4.4) * 1e4)), int(round(sp.get("veei_obj", 7.0) * 1e4)), int(round(sp.get("veei_ref", 10.0) * 1e4)),
+                           sp.get("spacetype", "Residencial")])
             for w in sp["walls"]:
                 consname = w.get("consname", "%s_%s" % (w["layers"], w["name"]))
                 wallcons[consname] = [consname, list(wallcons[w["layers"]][1]), list(wallcons[w["layers"]][2])]
@@ -279,6 +285,21 @@ def run_c18(tier, replay=None):
             # (2) generated documents in random layouts: every name, type, parent and attribute value
             for i in range(15 if quick else 300):
                 p = bdl_projects.random_project(rng)
+                # attribute sets vary: optional attributes of a space are left out in every combination, so that the documented
+                # legacy defaults (operating conditions named like the space type, thermal envelope by conditioning) are exercised
+                for fl in p["floors"]:
+                    for sp in fl["spaces"]:
+                        sp["spacetype"] = rng.choice(["Residencial", "Terciario_8h", "NIVEL_ESTANQUEIDAD_3"])
+                        for key, val in (("spacecond", rng.choice(["Residencial", "NIVEL_ESTANQUEIDAD_1"])), ("syscond", rng.choice(["Residencial", "Terciario_12h"]))):
+                            if rng.random() < 0.5:
+                                sp.pop(key, None)
+                            else:
+                                sp[key] = val
+                        if rng.random() < 0.4:
+                            sp.pop("inside", None)
+                        if rng.random() < 0.3:
+                            sp["nv"] = round(rng.uniform(0.1, 4.0), 2)
+                        sp["power"], sp["veei_obj"], sp["veei_ref"] = round(rng.uniform(1, 12), 2), round(rng.uniform(2, 8), 2), round(rng.uniform(8.5, 12), 2)
                 lay = random_layout(rng, i)
                 text, doc = bdl_projects.print_bdl(p, lay, want_doc=True)
                 reqs.append({"mode": "doc", "text": text, "src": "gen%d" % i, "layout": lay, "exp": expected_doc(doc)})
